@@ -1,7 +1,128 @@
-//! Generators for presets (C05/C07 tables), Hampel (C18) and ownership (C19).
-use crate::gen::{Case, Tier};
+//! Generators for the float-only code: Hampel (C18), Savitzky-Golay presets (C05), Daubechies presets (C07),
+//! and for the ownership ledger (C19).
+use crate::gen::{all_seqs, Case, Tier};
+use crate::interp::Interp;
 use crate::prng::Rng;
 
-pub fn generate(prop: &str, _rng: &mut Rng, _tier: &Tier) -> Vec<Case> {
-    panic!("harness: no generator for property {}", prop)
+fn b64(x: f64) -> String {
+    format!("x{:016x}", x.to_bits())
+}
+fn b32(x: f32) -> String {
+    format!("y{:08x}", x.to_bits())
+}
+fn fb(t: &str, x: f64) -> String {
+    if t == "f64" { b64(x) } else { b32(x as f32) }
+}
+
+fn float_value(rng: &mut Rng) -> f64 {
+    match rng.below(6) {
+        0 | 1 => rng.range(-32, 32) as f64 / 8.0,               // small dyadics, many ties
+        2 => rng.range(-3, 3) as f64,
+        3 => (rng.range(-1_000_000, 1_000_000) as f64) / 1000.0, // decimals (inexact)
+        4 => {
+            // a gross outlier
+            let s = if rng.chance(1, 2) { 1.0 } else { -1.0 };
+            s * (100.0 + rng.range(0, 1000) as f64)
+        }
+        _ => (rng.next() as f64 / u64::MAX as f64) * 20.0 - 10.0,
+    }
+}
+
+/// C18
+pub fn gen_hampel(rng: &mut Rng, tier: &Tier) -> Vec<Case> {
+    let mut cases = Vec::new();
+    let thresholds = [0.0, 0.5, 1.0, 2.0, 3.0];
+    // exhaustive: {0, 1, 5}^6
+    let alphabet = [0.0, 1.0, 5.0];
+    for n in 1..=(if tier.thorough { 5 } else { 3 }) {
+        for thr in [0.0, 1.0, 3.0] {
+            for s in all_seqs(3, if tier.thorough { 7 } else { 6 }) {
+                let mut c = vec![format!("new 1 hampel N={} thr={} T=f64", n, b64(thr))];
+                c.extend(s.iter().map(|i| format!("f 1 {}", b64(alphabet[*i as usize]))));
+                cases.push(c);
+            }
+        }
+    }
+    for t in ["f64", "f32"] {
+        for n in 1..=9usize {
+            for _ in 0..tier.n(40, 600) {
+                let thr = *rng.pick(&thresholds);
+                let mut c = vec![format!("new 1 hampel N={} thr={} T={}", n, fb(t, thr), t), "cfg 1".to_string()];
+                // mostly slowly varying signal with outliers
+                let base = float_value(rng);
+                for _ in 0..rng.range(1, 3 * n as i64 + 4) {
+                    let x = match rng.below(4) {
+                        0 => float_value(rng),
+                        1 => base,
+                        _ => base + rng.range(-8, 8) as f64 / 8.0,
+                    };
+                    c.push(format!("f 1 {}", fb(t, x)));
+                }
+                cases.push(c);
+            }
+        }
+    }
+    cases
+}
+
+/// C05 (presets): Savitzky-Golay filters on ramps, constants and random signals
+pub fn gen_sg(rng: &mut Rng, tier: &Tier) -> Vec<Case> {
+    let mut cases = Vec::new();
+    for t in ["f64", "f32"] {
+        for w in 1..=13usize {
+            for _ in 0..tier.n(6, 60) {
+                let mut c = vec![format!("new 1 sg W={} T={}", w, t), "cfg 1".to_string()];
+                let a = rng.range(-40, 40) as f64 / 4.0;
+                let b = if rng.chance(1, 4) { 0.0 } else { rng.range(-16, 16) as f64 / 8.0 };
+                let ramp = rng.chance(3, 4);
+                for i in 0..(2 * w + 4) {
+                    let x = if ramp { a + b * i as f64 } else { float_value(rng) };
+                    c.push(format!("f 1 {}", fb(t, x)));
+                }
+                cases.push(c);
+            }
+        }
+    }
+    cases
+}
+
+/// C07: Daubechies analysis -> synthesis cascades
+pub fn gen_daub(rng: &mut Rng, tier: &Tier) -> Vec<Case> {
+    let mut cases = Vec::new();
+    for t in ["f64", "f32"] {
+        for o in (2..=20usize).step_by(2) {
+            for shape in 0..tier.n(5, 40) {
+                let mut it = Interp::default();
+                let l1 = format!("new 1 daub_analyze O={} T={}", o, t);
+                let l2 = format!("new 2 daub_synth O={} T={} src=1", o, t);
+                it.exec(&l1).unwrap();
+                let mut c = vec![l1, l2, "cfg 1".to_string(), "cfg 2".to_string()];
+                let len = 3 * o + 4;
+                for i in 0..len {
+                    let x = match shape {
+                        0 => if i == 0 { 1.0 } else { 0.0 },                    // impulse at the first sample (edge-extended!)
+                        1 => if i == 2 { 1.0 } else { 0.0 },                    // impulse
+                        2 => if i >= 3 { 1.0 } else { 0.0 },                    // step
+                        3 => 2.5,                                               // constant
+                        _ => (rng.range(-1000, 1000) as f64) / 100.0,           // bounded random
+                    };
+                    let xs = fb(t, x);
+                    let out = it.exec(&format!("f 1 {}", xs)).unwrap();
+                    c.push(format!("f 1 {}", xs));
+                    c.push(format!("f 2 {}", out));
+                }
+                cases.push(c);
+            }
+        }
+    }
+    cases
+}
+
+pub fn generate(prop: &str, rng: &mut Rng, tier: &Tier) -> Vec<Case> {
+    match prop {
+        "C18" => gen_hampel(rng, tier),
+        "C05p" => gen_sg(rng, tier),
+        "C07" => gen_daub(rng, tier),
+        p => panic!("harness: no generator for property {}", p),
+    }
 }
